@@ -64,7 +64,7 @@ def build_access(rng, val, ops_used, depth=0):
                     break
             if sub is None:
                 return None, None
-        op = str(rng.choice(["idx", "negidx", "slice", "slice_step", "iter", "unpack", "extend_right", "extend_left", "ctor_tuple", "ctor_list", "len_guard", "contains", "nested_slice", "reversed"]))
+        op = str(rng.choice(["idx", "negidx", "slice", "slice_step", "iter", "unpack", "extend_right", "extend_left", "ctor_tuple", "ctor_list", "len_guard", "contains", "nested_slice", "reversed", "extend_left_traced", "extend_right_traced", "extend_left_traced3", "ctor_tuple3"]))
         ops_used.append(op)
         extra = 0.77
         if op == "idx":
@@ -99,6 +99,28 @@ def build_access(rng, val, ops_used, depth=0):
             f = (lambda c: (c + (extra, 1.0))[i]) if isinstance(val, tuple) else (lambda c: (c + [extra, 1.0])[i])
         elif op == "extend_left":
             f = (lambda c: ((extra, 2.0) + c)[i + 2]) if isinstance(val, tuple) else (lambda c: ([extra, 2.0] + c)[i + 2])
+        elif op == "extend_right_traced":
+            # traced elements appended: (c + (c[j], c[i]))[n + 1]
+            j = int(rng.integers(0, n))
+            mk = (lambda *e: tuple(e)) if isinstance(val, tuple) else (lambda *e: list(e))
+            f = lambda c: (c + mk(c[j], c[i]))[n + 1]
+        elif op == "extend_left_traced":
+            j = int(rng.integers(0, n))
+            mk = (lambda *e: tuple(e)) if isinstance(val, tuple) else (lambda *e: list(e))
+            f = lambda c: (mk(c[j], c[i]) + c)[1]
+        elif op == "extend_left_traced3":
+            j = int(rng.integers(0, n))
+            mk = (lambda *e: tuple(e)) if isinstance(val, tuple) else (lambda *e: list(e))
+            f = lambda c: (mk(c[j], 0.5, c[i]) + c)[2]
+        elif op == "ctor_tuple3":
+
+            def f(c):
+                import autograd.builtins as ab
+
+                j2 = (i + 1) % n
+                t = ab.tuple((c[j2], 3.0, c[i], c[j2]))
+                return t[2] if _is_traced(c) else c[i]
+
         elif op == "ctor_tuple":
 
             def f(c):
